@@ -500,6 +500,9 @@ pub struct GenParams {
     pub dup_kinds: bool,
     /// e_shoff != 0, e_shnum == 0 and shdr[0].sh_size == 0: a present-but-empty table
     pub xnum_zero: bool,
+    /// size of one big PROGBITS section (0 = none): reads larger than any plausible
+    /// internal chunk size
+    pub big: usize,
 }
 
 impl GenParams {
@@ -567,6 +570,15 @@ impl GenParams {
             extra_phdrs: rng.urange(0, 3),
             dup_kinds: rng.chance(1, 12),
             xnum_zero: rng.chance(1, 14),
+            big: if small {
+                0
+            } else if thorough && rng.chance(1, 16) {
+                rng.urange(4096, 70_000)
+            } else if rng.chance(1, 48) {
+                rng.urange(4000, 17_000)
+            } else {
+                0
+            },
         }
     }
 
@@ -606,6 +618,7 @@ impl GenParams {
             .with("xnum_ph", J::Bool(self.xnum_ph))
             .with("xindex", J::Bool(self.xindex))
             .with("xnum_zero", J::Bool(self.xnum_zero))
+            .with("big", J::u(self.big as u64))
             .with("no_shstrtab", J::Bool(self.no_shstrtab))
             .with("max_pad", J::u(self.max_pad as u64))
             .with("nsyms", J::u(self.nsyms as u64))
@@ -821,6 +834,18 @@ pub fn build(rng: &mut Rng, p: &GenParams) -> Vec<u8> {
         rng.fill(&mut d);
         secs.push(Sec {
             name: format!(".text.{}", i),
+            typ: hdr::SHT_PROGBITS,
+            flags: SHF_ALLOC | 4,
+            data: d,
+            align: 16,
+            ..Default::default()
+        });
+    }
+    if p.big > 0 {
+        let mut d = vec![0u8; p.big];
+        rng.fill(&mut d);
+        secs.push(Sec {
+            name: ".text.big".into(),
             typ: hdr::SHT_PROGBITS,
             flags: SHF_ALLOC | 4,
             data: d,
